@@ -102,6 +102,12 @@ def inline_crate(j):
 
     def target_of(caller, t):
         c = t['callee']
+        if (c.get('def') or '') == 'std::convert::Into::into' and len(c.get('args') or []) == 2:
+            # `x.into()` through core's blanket impl: the conversion is the crate's own `From` impl
+            cand = '<impl std::convert::From<%s> for %s>::from' % (c['args'][0], c['args'][1])
+            g = by_name.get(cand)
+            if g is not None and cand not in kn:
+                return g, 'fn'
         if not c.get('local'):
             return None, None
         path = c.get('path') or ''
@@ -164,8 +170,16 @@ def inline_crate(j):
     for name, g in list(by_name.items()):
         if g.get('kind') == 'Closure' or name in kn or name not in inlined_names:
             continue
-        if name in uninlined_calls or not str(g.get('vis', '')).startswith('Restricted') or g.get('impl_trait'):
+        if name in uninlined_calls or not str(g.get('vis', '')).startswith('Restricted'):
             continue
+        tr = g.get('impl_trait')
+        if tr:
+            # methods of a *new crate-local* trait (a private extension trait) are ordinary helpers; impls of
+            # foreign or pre-existing traits stay (they are reachable through the trait)
+            local_mods = {n.split('::')[0] for n in kn if '::' in n and not n.startswith('<')}
+            is_local = '::' not in tr or tr.split('::')[0] in local_mods
+            if not is_local or any((' as %s>' % tr) in k or k.startswith(tr + '::') for k in kn):
+                continue
         if _used_as_value(j, name):
             continue
         stats['dropped'].append(name)
@@ -181,6 +195,7 @@ def inline_crate(j):
             if cname in gone:
                 continue
             n_aggs = 0
+            n_live = 0
             for f2 in j['fns']:
                 if f2['name'] in gone:
                     continue
@@ -189,14 +204,54 @@ def inline_crate(j):
                         rv = st.get('rv') or {}
                         if rv.get('r') == 'agg' and rv.get('kind', {}).get('k') == 'closure' and rv['kind'].get('path') == cname:
                             n_aggs += 1
-            if n_aggs <= 1:
+                            if not rv['kind'].get('consumed'):
+                                n_live += 1
+            if n_aggs <= 1 or n_live == 0:
                 stats['dropped'].append(cname)
+                changed = True
+    # closures of a dropped helper that no retained function builds any more (their for_each became a loop in the
+    # helper's body before that body was copied into the callers): judged in context there, not on their own
+    changed = True
+    while changed:
+        changed = False
+        gone = set(stats['dropped'])
+        referenced = set()
+        for f2 in j['fns']:
+            if f2['name'] in gone:
+                continue
+            for b in f2['blocks']:
+                for st in b['stmts']:
+                    rv = st.get('rv') or {}
+                    if rv.get('r') == 'agg' and rv.get('kind', {}).get('k') == 'closure':
+                        referenced.add(rv['kind'].get('path'))
+        for f2 in j['fns']:
+            n = f2['name']
+            if n in gone or f2.get('kind') != 'Closure' or n in referenced:
+                continue
+            if any(n.startswith(g + '::{closure') for g in gone):
+                stats['dropped'].append(n)
                 changed = True
     if stats['dropped']:
         drop = set(stats['dropped'])
         j['fns'] = [f for f in j['fns'] if f['name'] not in drop]
     for f in j['fns']:
         f.pop('_inl_done', None)
+    # CFG normalisation of the functions that received a body: thread jumps over flags / variants the spliced body
+    # returns, then split the multi-definition temporaries into def-use webs
+    import cfgnorm
+    touched = {x.split(' <- ')[0] for x in stats['sites']}
+    if os.environ.get('CFR_NORM_ALL'):
+        touched = {f['name'] for f in j['fns']}
+    stats['threaded'] = 0
+    stats['webs'] = 0
+    for f in j['fns']:
+        if f['name'] in touched:
+            for _ in range(4):
+                n = cfgnorm.thread_jumps(f, j.get('adts') or {})
+                stats['threaded'] += n
+                if not n:
+                    break
+            stats['webs'] += cfgnorm.split_webs(f)
     return stats
 
 
@@ -221,6 +276,40 @@ def _alias_renamed(j, kn):
         if len(cands) == 1:
             pairs.append((cands[0], m))
             taken.add(cands[0])
+    # second chance: the rename came with a reshaped private parameter type (tuple -> struct, alias ...): same
+    # module, same arity, same return type, and the only such pair
+    def shape(sig):
+        if not sig or 'fn(' not in sig:
+            return None
+        i = sig.index('fn(') + 3
+        depth, n, j_, has = 1, 0, i, False
+        while j_ < len(sig) and depth:
+            c = sig[j_]
+            if c in '([<':
+                depth += 1
+            elif c in ')]>' and not (c == '>' and sig[j_ - 1] == '-'):
+                depth -= 1
+            elif c == ',' and depth == 1:
+                n += 1
+            if depth and not c.isspace():
+                has = True
+            j_ += 1
+        ret = sig[j_:].split('->', 1)[1].strip() if '->' in sig[j_:] else '()'
+        return (n + 1 if has else 0, ret)
+    paired_old = {m for _, m in pairs}
+    for m in sorted(missing):
+        if m in paired_old:
+            continue
+        parent = m.rsplit('::', 1)[0] if '::' in m else ''
+        sh = shape(ref_sigs.get(m) if isinstance(ref_sigs, dict) else None)
+        if sh is None:
+            continue
+        cands = [u for u in unknown if (u.rsplit('::', 1)[0] if '::' in u else '') == parent and u not in taken and shape(names[u].get('sig')) == sh]
+        rivals = [m2 for m2 in missing if m2 not in paired_old and m2 != m and (m2.rsplit('::', 1)[0] if '::' in m2 else '') == parent and shape(ref_sigs.get(m2)) == sh]
+        if len(cands) == 1 and not rivals:
+            pairs.append((cands[0], m))
+            taken.add(cands[0])
+            paired_old.add(m)
     if not pairs:
         return []
     ren = dict(pairs)
@@ -542,6 +631,10 @@ def _for_each_to_loop(f, bi, by_name, inline_fn, stack, depth, fold=False, try_=
         if not _splice(f, bBody, g, 'fn'):
             return False
         f.setdefault('_inlined_closures', []).append(g['name'])
+        for b_ in f['blocks']:
+            for st_ in b_['stmts']:
+                if st_['s'] == 'assign' and st_['pl']['l'] == cl and not st_['pl']['p'] and st_['rv'].get('r') == 'agg' and st_['rv']['kind'].get('k') == 'closure':
+                    st_['rv']['kind']['consumed'] = True     # survives copies of this body into callers
     # the original block: move the iterator into its slot and enter the loop
     f['blocks'][bi]['stmts'].append({'s': 'assign', 'pl': pl(l_it, it_ty), 'rv': {'r': 'use', 'a': copy.deepcopy(it_op)}, 'line': line, 'exp': True})
     if fold:
